@@ -96,14 +96,18 @@ FAULT_ZONE_END = 300        # every fault ends before the tail starts (30+120+12
 STARTS = {'first': 1, 'mid-motion': 90, 'after-kick': 151, 'late': None}
 
 
+CONFIG_NAMES = {'Dt', 'frequency', 'gain', 'gain_imu', 'gain_marg', 'k_P', 'k_I', 'frame', 'g_noise', 'a_noise', 'm_noise', 'alpha', 'beta',
+                'kappa', 'threshold', 'adaptive', 'sigma_a', 'sigma_g', 'sigma_m'}
+
+
 def scalar_config(obj):
-    """Scalar public attributes of a filter object (gains, periods, flags, frame): its configuration."""
+    """The documented scalar parameters of a filter object (gains, periods, noise levels, flags, frame): its configuration."""
     if obj is None:
         return None
     out = {}
     for k, val in vars(obj).items():
-        if k.startswith('_'):
-            continue
+        if k not in CONFIG_NAMES:
+            continue        # only the documented parameters: a diagnostic counter a class may keep is not configuration
         if isinstance(val, (bool, int, float, str)) or val is None:
             out[k] = val
         elif isinstance(val, np.generic) and np.ndim(val) == 0:
